@@ -224,13 +224,14 @@ def recover_corr(v) -> list:
 
 
 def recover_weight(v) -> list:
-    """The reduced pair (n, k) with float(n / k) == v exactly; [0, 0] if there is none."""
+    """The reduced pair (n, k), k <= MAXDEN, with n/k = v within a relative CORR_TOL (a table re-read from
+    the CSV file is 1 ulp off; two such fractions differ by at least 1/MAXDEN^2); [0, 0] if there is none."""
     try:
         v = float(v)
-        if not math.isfinite(v) or v < 1.0:
+        if not math.isfinite(v) or v < 1.0 - 1e-9:
             return [0, 0]
         f = Fraction(v).limit_denominator(MAXDEN)
-        if f.numerator / f.denominator != v:
+        if abs(f.numerator / f.denominator - v) > CORR_TOL * abs(v):
             return [0, 0]
         return [f.numerator, f.denominator]
     except (ValueError, OverflowError, TypeError):
@@ -317,7 +318,8 @@ def record_instance(item):
     if variant == 'recycled':
         db2 = gen.sample_and_merge(recycle=True)
         same = (list(db2.data.columns) == list(db.data.columns) and len(db2.data) == len(db.data)
-                and bool(np.array_equal(db2.data.to_numpy(dtype=float), db.data.to_numpy(dtype=float))))
+                # pandas.read_csv's default float parser is not round-trip exact (1 ulp on the corrections)
+                and bool(np.allclose(db2.data.to_numpy(dtype=float), db.data.to_numpy(dtype=float), rtol=1e-12, atol=1e-12)))
         note = '' if same else 'recycled-differs'
         db = db2
     try:
